@@ -37,8 +37,6 @@ func Run(r *core.Report, env *build.Env) {
 	}
 	if r.Tier == "thorough" {
 		hs = append(hs,
-			goh.Harness{Pkg: "src/parser", Func: "VerifC09SortAliases4", Bound: "4 candidates"},
-			goh.Harness{Pkg: "src/parser/typechecker", Func: "VerifC09FindOverload3", Bound: "table of 3 overloads x 2 operands"},
 			goh.Harness{Pkg: "src/parser", Func: "VerifC09CallSitesAll", Bound: "every population of the 10 alias declarations x 8 argument forms per position"},
 		)
 	}
